@@ -53,6 +53,14 @@ fn mips_fields(rng: &mut Rng) -> (u32, u32, u32, u32) {
 }
 
 /// a non-branch MIPS instruction word
+pub fn mips_template_word(rng: &mut Rng) -> u32 {
+    if rng.chance(1, 4) { mips_branch(rng) } else { mips_plain(rng) }
+}
+
+pub fn ppc_template_word(rng: &mut Rng) -> u32 {
+    ppc_word(rng)
+}
+
 fn mips_plain(rng: &mut Rng) -> u32 {
     let (rs, rt, rd, sh) = mips_fields(rng);
     let imm = match rng.below(4) {
